@@ -10,6 +10,7 @@ import (
 	"encoding/hex"
 	"fmt"
 	"io"
+	"os"
 	"sort"
 	"strconv"
 	"strings"
@@ -38,7 +39,7 @@ const C = boson.ChunkSize
 func (prop) ID() string { return "C09" }
 func (prop) Rule() string {
 	return "cases: 1-3 objects, each followed by traverse / pyramid / hashes / pin ops. Objects: `file` (plain or encrypted upload through builder.NewPipelineBuilder; sizes 0,1,31..33,4095..4097,C-1,C,C+1,2C-1..2C+1,3C+5, random up to 40 chunks; " +
-		"thorough adds one plain 8193-chunk (three-level, periodic content) and one encrypted 4097-chunk file) and `dir` (manifest.NewDefaultManifest over loadsave: 1-40 files, paths over {a,b,c,/,.} with shared prefixes, nesting and some >30-byte paths, " +
+		"thorough adds one encrypted 4097-chunk file (three levels, periodic content; plus a plain 8193-chunk one when VERIF_C09_GIANT=1)) and `dir` (manifest.NewDefaultManifest over loadsave: 1-40 files, paths over {a,b,c,/,.} with shared prefixes, nesting and some >30-byte paths, " +
 		"file sizes mostly <2 KiB plus a few around C and 2C, optional '/' root entry with zero address, plain or encrypted). A smaller malformed stream traverses unknown / odd-length references and unknown ids. " +
 		"Non-trivial: some object has more than one chunk written and at least one traversal op ran on it; distinct by op-list hash."
 }
@@ -733,9 +734,9 @@ func obsOps(r *core.Rand, id string) []string {
 }
 
 func (prop) Gen(r *core.Rand, tier string) []core.Case {
-	n, budget := 40, 80
+	n, budget := 28, 50
 	if tier == "thorough" {
-		n, budget = 500, 2500
+		n, budget = 200, 700
 	}
 	var cs []core.Case
 	cs = append(cs,
@@ -748,10 +749,12 @@ func (prop) Gen(r *core.Rand, tier string) []core.Case {
 		core.Case{ID: "fix-malformed", NT: false, Ops: []string{"traverse nope", "travref " + strings.Repeat("ab", 32), "travref " + strings.Repeat("ab", 64), "travref abcd", "travref -", "file x 2 h:00", "dir d 0 0 zz"}},
 	)
 	if tier == "thorough" {
-		cs = append(cs,
-			core.Case{ID: "big-plain-3level", NT: true, Ops: []string{fmt.Sprintf("file f 0 p:9:%d:%d", 8193*C+17, C), "traverse f", "pyramid f", "hashes f", "pin f"}},
-			core.Case{ID: "big-enc-3level", NT: true, Ops: []string{fmt.Sprintf("file f 1 p:9:%d:%d", 4097*C+17, C), "traverse f", "pyramid f", "hashes f", "pin f"}},
-		)
+		// three-level trees (the only ones with intermediate chunks below the root): 1 GiB encrypted;
+		// the 2 GiB plain one only on request (VERIF_C09_GIANT=1), it needs ~10 GiB and many minutes
+		cs = append(cs, core.Case{ID: "big-enc-3level", NT: true, Ops: []string{fmt.Sprintf("file f 1 p:9:%d:%d", 4097*C+17, C), "traverse f", "pyramid f", "hashes f", "pin f"}})
+		if os.Getenv("VERIF_C09_GIANT") == "1" {
+			cs = append(cs, core.Case{ID: "big-plain-3level", NT: true, Ops: []string{fmt.Sprintf("file f 0 p:9:%d:%d", 8193*C+17, C), "traverse f", "pyramid f", "hashes f", "pin f"}})
+		}
 	}
 	for i := 0; i < n; i++ {
 		c := core.Case{ID: fmt.Sprintf("g%d", i)}
